@@ -959,3 +959,10 @@ impl<B: Buf> fmt::Debug for Prioritized<B> {
             .finish()
     }
 }
+
+#[cfg(feature = "verif")]
+impl Prioritize {
+    pub(super) fn verif_stats(&self) -> (i32, i32) {
+        self.flow.verif_raw()
+    }
+}
